@@ -9,23 +9,38 @@ switched key; a state that was INSERTed in the rolled-back work is expunged as t
 import contracts.identity  # noqa: F401
 from pyvc.contract import fn, cls
 
-cls("SessRS", fields={"identity_map": "_WeakInstanceDict", "_new": "dict", "_deleted": "dict"})
+cls("SessRS", fields={"identity_map": "_WeakInstanceDict", "_new": "dict", "_deleted": "dict", "_transaction": "opt:STxRS"})
 cls("STxRS", fields={"_new": "dict", "_dirty": "dict", "_deleted": "dict", "_key_switches": "dict", "session": "SessRS", "_is_transaction_boundary": "bool"})
 D = "self.session.identity_map._dict"
 KS = "self._key_switches"
-fn("orm/session.py::Session._expunge_states@rs", abstract=True, params=["self", "states", "to_transient"], cls="SessRS", returns="none",
-   types={"states": "set", "elems:states": "IState", "expr:seq(states)[j]": "IState", "values:self.identity_map._dict": "IState"},
-   modifies=["each(seq(states)).key", "contents(self.identity_map._dict)", "contents(self.identity_map._modified)", "contents(self._new)", "contents(self._deleted)",
-             "any._instance_dict"],
-   requires=["forall(lambda k: implies(dhas(self.identity_map._dict, k), dget(self.identity_map._dict, k).key is k))"],
-   ensures=["all(seq(states)[j].key is None for j in range(len(seq(states))))",
-            "forall(lambda k: implies(dhas(self.identity_map._dict, k), not (dget(self.identity_map._dict, k) in states)))",
-            # only removals from the identity map, and only of the given states
-            "forall(lambda k: implies(dhas(self.identity_map._dict, k), old(dhas(self.identity_map._dict, k)) and dget(self.identity_map._dict, k) is old(dget(self.identity_map._dict, k))))",
-            "forall(lambda k: implies(old(dhas(self.identity_map._dict, k)) and not dhas(self.identity_map._dict, k), old(dget(self.identity_map._dict, k)) in states))",
-            "seq(states) == old(seq(states))"],
-   notes="Session._expunge_states(states, to_transient=True): pops the states from _new / discards them from the identity map and hands them to "
-         "InstanceState._detach_states(to_transient=True), which deletes their identity key (proved under C35: _detach_states#lifecycle)")
+fn("orm/state.py::InstanceState._detach_states@rs", abstract=True, params=["self", "states", "session", "to_transient"], returns="none",
+   types={"states": "set", "expr:seq(states)[j]": "IState", "to_transient": "bool"}, modifies=["each(seq(states)).key"],
+   ensures=["all(seq(states)[j].key is ite(to_transient, None, old(seq(states)[j].key)) for j in range(len(seq(states))))", "seq(states) == old(seq(states))"],
+   notes="InstanceState._detach_states (proved under C35 as _detach_states#lifecycle, there over a list of states and with the session events): a state handed "
+         "over loses its identity key exactly when to_transient is set; session_id / _strong_obj are not modelled here")
+EXP_T = {"states": "set", "elems:states": "IState", "expr:seq(states)[j]": "IState", "state": "IState", "to_transient": "bool",
+         "values:self.identity_map._dict": "IState", "expr:self._transaction": "opt:STxRS"}
+DS = "self.identity_map._dict"
+ONLY_REMOVALS = ["forall(lambda k: implies(dhas(DS, k), old(dhas(DS, k)) and dget(DS, k) is old(dget(DS, k))))".replace("DS", DS),
+                 "forall(lambda k: implies(old(dhas(DS, k)) and not dhas(DS, k), old(dget(DS, k)) in PFX))".replace("DS", DS)]
+fn("orm/session.py::Session._expunge_states", cls="SessRS", props=["C34"], types=EXP_T, returns="none",
+   callees={"statelib.InstanceState._detach_states": dict(fn="orm/state.py::InstanceState._detach_states@rs", args=["None", "$0", "$1", "$kw:to_transient"])},
+   requires=["forall(lambda k: implies(dhas(DS, k), dget(DS, k).key is k and not dhas(self._new, dget(DS, k))))".replace("DS", DS),
+             "states is not self.identity_map._modified", "self._new is not " + DS, "self._deleted is not " + DS, "self._new is not self._deleted",
+             "implies(self._transaction is not None, self._transaction._deleted is not " + DS + " and self._transaction._deleted is not self._new)"],
+   invariant={0: [c.replace("PFX", "prefix(seq(states), _i)") for c in ONLY_REMOVALS] + [
+       # a processed state is bound nowhere any more
+       "forall(lambda k: implies(dhas(DS, k), not (dget(DS, k) in prefix(seq(states), _i))))".replace("DS", DS),
+       "forall(lambda k: implies(dhas(DS, k), dget(DS, k).key is k and not old(dhas(self._new, dget(DS, k)))))".replace("DS", DS),
+       "forall(lambda q: implies(dhas(self._new, q), old(dhas(self._new, q))))",
+       "self._transaction is old(self._transaction)"]},
+   loop_modifies={0: ["contents(self._new)", "contents(self._deleted)", "contents(self._transaction._deleted)", "contents(" + DS + ")",
+                      "contents(self.identity_map._modified)", "any._instance_dict"]},
+   ensures=["all(seq(states)[j].key is ite(to_transient, None, old(seq(states)[j].key)) for j in range(len(seq(states))))",
+            "forall(lambda k: implies(dhas(DS, k), not (dget(DS, k) in states)))".replace("DS", DS)] +
+           [c.replace("PFX", "states") for c in ONLY_REMOVALS] + ["seq(states) == old(seq(states))"],
+   modifies=["each(seq(states)).key", "contents(self._new)", "contents(self._deleted)", "contents(self._transaction._deleted)", "contents(" + DS + ")",
+             "contents(self.identity_map._modified)", "any._instance_dict"])
 fn("orm/session.py::Session._update_impl@rs", abstract=True, params=["self", "state"], cls="SessRS", returns="none", types={"state": "IState"},
    modifies=["contents(self._deleted)", "contents(self.identity_map._dict)", "contents(self.identity_map._modified)", "any._instance_dict"],
    ensures=["not dhas(self._deleted, state)",
@@ -40,11 +55,18 @@ FULLREP = "forall(lambda k: implies(dhas(D, k), dget(D, k).key is k))".replace("
 SJ = "seq(keys(self._key_switches))[j]"
 EXP0 = "(old(dhas(self._new, SJ)) or old(dhas(self.session._new, SJ)))".replace("SJ", SJ)
 fn("orm/session.py::SessionTransaction._restore_snapshot", cls="STxRS", props=["C34"], types=T, returns="none",
-   callees={"self.session._expunge_states": dict(fn="orm/session.py::Session._expunge_states@rs", recv="self.session", args=["$0", "True"]),
+   callees={"self.session._expunge_states": dict(fn="orm/session.py::Session._expunge_states", recv="self.session", args=["$0", "$kw:to_transient"]),
             "self.session._update_impl": dict(fn="orm/session.py::Session._update_impl@rs", recv="self.session", args=["$0"]), "self.session.identity_map.all_states": "havoc:seq", "s._expire": "noop"},
    requires=["self._is_transaction_boundary", FULLREP, "all(is_tuple(dget(KS, k), 2) for k in keys(KS))".replace("KS", KS),
              "all(dget(KS, k)[0] is not None for k in keys(KS))".replace("KS", KS),
-             KS + " is not " + D, KS + " is not self._new", KS + " is not self.session._new", KS + " is not self.session._deleted"],
+             KS + " is not " + D, KS + " is not self._new", KS + " is not self.session._new", KS + " is not self.session._deleted",
+             # what Session._expunge_states needs: a pending state is not bound in the identity map; the session's containers are distinct objects
+             "forall(lambda k: implies(dhas(D, k), not dhas(self.session._new, dget(D, k))))".replace("D,", D + ","),
+             "self.session._new is not " + D, "self.session._deleted is not " + D, "self.session._new is not self.session._deleted",
+             # a rollback runs inside the session's current transaction
+             "self.session._transaction is not None",
+             "self.session._transaction._deleted is not " + D, "self.session._transaction._deleted is not self.session._new",
+             "self.session._transaction._deleted is not " + KS],
    invariant={0: [
        # a processed state that stays in the session has its ORIGINAL key back and is findable under it
        ("all(implies(not EXP0, SJ.key is dget(KS, SJ)[0] and dhas(D, SJ.key) and dget(D, SJ.key) in prefix(seq(keys(KS)), _i) and dget(D, SJ.key).key is SJ.key) for j in range(_i))"
